@@ -16,6 +16,8 @@ TECH = ("value numbering of the circumcentre formula (exact identity |U-A|=|U-B|
 
 def check(ctx):
     repo = ctx.repo
+    ctx.rule("R07.6", "generate_mesh hands the triangulator one coordinate frame: outline, hole outlines, hole markers and boundary points "
+                      "are all shifted by the same offset, and the result is shifted back", 1)
     ctx.rule("R07.5", "a constructed mesh is never modified: Mesh/EdgeMesh attributes are written by the constructors only", 1)
     ctx.rule("R07.1", "generate_voronoi_vertices returns the circumcentre: equidistant from the three triangle vertices", 2)
     ctx.rule("R07.2", "edges are sorted unique site pairs; boundary = incidence count one; centres/directions/lengths are those of the site pairs", 6)
@@ -117,6 +119,7 @@ def check(ctx):
     keys = [norm(n) for n in ast.walk(fd.node) if isinstance(n, ast.Call) and norm(n.func) == "frozenset"]
     ctx.ob("R07.3", "edges are matched to triangles as unordered pairs", len(keys) == 2, detail=keys, where=fd.fq, construct="edge keys",
            message=f"edge keys: {keys}", consequence="an edge misses one of its two triangles")
+    mesher_frames(ctx)
     cell_area_signs(ctx)
     ctx.decline("tiling of film minus holes, Euler characteristic, positive orientation and non-degeneracy of triangles (Triangle/meshpy), "
                 "clipped Voronoi areas of boundary cells (qhull convex hulls), terminal length 'to within one edge' (matplotlib path "
@@ -184,3 +187,144 @@ def cell_area_signs(ctx):
         all(t in ("0", "0.0") or (t.endswith(".volume") and t.startswith("ConvexHull(")) for t in areas_ret)
     ctx.ob("R07.4", "get_convex_polygon_area returns the (unsigned) convex-hull area", ok, where=fh.fq, construct="get_convex_polygon_area",
            message="get_convex_polygon_area no longer returns hull.volume", consequence="cell areas depend on vertex order")
+
+
+# ---------------------------------------------------------------------------
+# R07.6 coordinate frames in generate_mesh
+# ---------------------------------------------------------------------------
+
+def mesher_frames(ctx):
+    """A two-point type system: U = the user's frame, C = the centred frame (U - r0).  `x - r0`: U -> C, `x + r0`: C -> U;
+    anything else keeps the frame of its array argument.  Everything given to the MeshInfo must be C (the frame of the points),
+    membership tests compare equal frames, and what is returned is U."""
+    repo = ctx.repo
+    f = repo.func("tdgl.device.meshing", "generate_mesh")
+    fn = f.node
+    params = {a.arg for a in fn.args.args + fn.args.kwonlyargs}
+    coord_params = {p_ for p_ in ("poly_coords", "hole_coords", "boundary") if p_ in params}
+    if len(coord_params) < 2:
+        raise AnalysisError("generate_mesh no longer takes poly_coords / hole_coords")
+    # the offset: right operand of the subtraction whose result reaches set_points
+    setp = [c for c in own_nodes(fn) if isinstance(c, ast.Call) and isinstance(c.func, ast.Attribute) and c.func.attr == "set_points"]
+    if len(setp) != 1 or not isinstance(setp[0].args[0], ast.Name):
+        raise AnalysisError("generate_mesh no longer calls mesh_info.set_points(<name>)")
+    pts_name = setp[0].args[0].id
+    off = None
+    for n in own_nodes(fn):
+        if isinstance(n, ast.Assign) and any(isinstance(t, ast.Name) and t.id == pts_name for t in n.targets) \
+                and isinstance(n.value, ast.BinOp) and isinstance(n.value.op, ast.Sub) and isinstance(n.value.right, ast.Name):
+            off = n.value.right.id
+    env = {p_: "U" for p_ in coord_params}
+    problems = []
+    sinks = 0
+
+    def is_off(e):
+        # r0, r0.squeeze(), r0[0] ...: an expression over the offset name alone
+        names = {x.id for x in ast.walk(e) if isinstance(x, ast.Name)}
+        return off is not None and isinstance(e, (ast.Name, ast.Call, ast.Attribute, ast.Subscript)) and names == {off}
+
+    def fr(e, loc_env):
+        """frame of an expression: 'U', 'C' or None (not a coordinate)"""
+        if isinstance(e, ast.Name):
+            return loc_env.get(e.id)
+        if isinstance(e, ast.BinOp) and isinstance(e.op, (ast.Sub, ast.Add)):
+            l, r = fr(e.left, loc_env), fr(e.right, loc_env)
+            if is_off(e.right) and l is not None:
+                if isinstance(e.op, ast.Sub):
+                    if l != "U":
+                        problems.append((e, f"`{norm(e)[:60]}` subtracts the offset from a value that is already centred"))
+                    return "C"
+                if l != "C":
+                    problems.append((e, f"`{norm(e)[:60]}` adds the offset to a value in the user's frame"))
+                return "U"
+            if l and r and l != r:
+                problems.append((e, f"`{norm(e)[:60]}` combines the two frames"))
+            return l or r
+        if isinstance(e, (ast.Subscript, ast.Starred)):
+            return fr(e.value, loc_env)
+        if isinstance(e, ast.Attribute):
+            return fr(e.value, loc_env)
+        if isinstance(e, (ast.List, ast.Tuple)):
+            fs = {fr(x, loc_env) for x in e.elts} - {None}
+            if len(fs) > 1:
+                problems.append((e, f"`{norm(e)[:60]}` mixes the two frames"))
+            return next(iter(fs)) if fs else None
+        if isinstance(e, (ast.ListComp, ast.GeneratorExp)):
+            le = dict(loc_env)
+            for g in e.generators:
+                if isinstance(g.target, ast.Name):
+                    le[g.target.id] = fr(g.iter, le)
+            return fr(e.elt, le)
+        if isinstance(e, ast.Call):
+            fs = [fr(a, loc_env) for a in e.args] + [fr(k.value, loc_env) for k in e.keywords]
+            if isinstance(e.func, ast.Attribute):
+                fs.append(fr(e.func.value, loc_env))
+            fs = [x for x in fs if x]
+            return fs[0] if fs else None
+        if isinstance(e, ast.IfExp):
+            return fr(e.body, loc_env) or fr(e.orelse, loc_env)
+        return None
+
+    def walk(stmts):
+        nonlocal sinks
+        for st in stmts:
+            if isinstance(st, ast.Assign):
+                v = fr(st.value, env)
+                # mesh = triangle.build(mesh_info=...): its points are in the frame of the points it was given
+                if isinstance(st.value, ast.Call) and norm(st.value.func).endswith(".build"):
+                    v = env.get("@meshinfo")
+                for t in st.targets:
+                    if isinstance(t, ast.Name):
+                        if t.id == off:
+                            continue
+                        if v:
+                            env[t.id] = v
+                        elif not (isinstance(st.value, (ast.List, ast.Tuple)) and not st.value.elts):   # `x = []` default keeps the frame
+                            env.pop(t.id, None)
+                    elif isinstance(t, ast.Tuple):
+                        for x in t.elts:
+                            if isinstance(x, ast.Name):
+                                env.pop(x.id, None)
+            for c in ast.walk(st) if not isinstance(st, (ast.For, ast.While, ast.If)) else ast.walk(getattr(st, "test", None) or getattr(st, "iter", st)):
+                if isinstance(c, ast.Call) and isinstance(c.func, ast.Attribute) and c.func.attr in ("set_points", "set_holes"):
+                    sinks += 1
+                    got = fr(c.args[0], env)
+                    if c.func.attr == "set_points":
+                        env["@meshinfo"] = got
+                    want = "C" if off else env.get("@meshinfo")
+                    if got != want:
+                        problems.append((c, f"`{norm(c)[:70]}` receives coordinates in the {'user' if got == 'U' else got} frame, "
+                                            f"the points are in the {'centred' if want == 'C' else want} frame"))
+                if isinstance(c, ast.Compare) and len(c.ops) == 1 and isinstance(c.ops[0], (ast.In, ast.NotIn)):
+                    a, b = fr(c.left, env), fr(c.comparators[0], env)
+                    if a and b:
+                        sinks += 1
+                        if a != b:
+                            problems.append((c, f"`{norm(c)[:70]}` tests membership across frames ({a} in {b})"))
+            if isinstance(st, ast.Return) and isinstance(st.value, ast.Tuple) and st.value.elts:
+                sinks += 1
+                got = fr(st.value.elts[0], env)
+                if got != "U":
+                    problems.append((st, f"`{norm(st)[:60]}` returns points in the {'centred' if got == 'C' else got} frame"))
+            if isinstance(st, ast.For):
+                if isinstance(st.target, ast.Name):
+                    v = fr(st.iter, env)
+                    if v:
+                        env[st.target.id] = v
+                walk(st.body)
+            elif isinstance(st, ast.While):
+                walk(st.body)
+            elif isinstance(st, ast.If):
+                walk(st.body)
+                walk(st.orelse)
+    walk(fn.body)
+    for node, msg in problems:
+        ctx.ob("R07.6", f"frame error: {msg[:90]}", False, where=f.fq, construct=f"coordinate frames in generate_mesh: {msg[:60]}", loc=loc(f, node),
+               message=f"generate_mesh: {msg}",
+               consequence="for a device that is not centred on the origin the hole markers (or boundary points) are not where the outline is: "
+                           "holes are meshed over, or the film is carved away - the mesh does not tile film minus holes",
+               witness={"input": "a ring centred at (7, 4)"})
+    ctx.ob("R07.6", f"{sinks} frame-sensitive sites of generate_mesh agree (offset `{off}`)", not problems and sinks >= 4 and off is not None,
+           detail={"sites": sinks, "offset": off}, where=f.fq, construct="coordinate frames in generate_mesh (summary)", loc=loc(f, fn),
+           message="generate_mesh no longer centres its coordinates consistently" if not problems else "see the frame errors above",
+           consequence="see above")
